@@ -189,3 +189,66 @@ Definition xs_eqb (o : res robj) (ops : list xop) (seen : list vec) : bool :=
 
 (* a + b of two reactions (V.C17.Model.radd), used to obtain a chemical in two phases *)
 Definition rsum (mws : vec) (a b : res rxn) : res rxn := do x <- a; do y <- b; radd mws x y.
+
+(* ====================================================================================== *)
+(* Single-phase Stream: the H setter (thermosteam/_stream.py) catches ANY exception of the solver
+   and retries once in the other fluid phase ('g' <-> 'l', decided on phase.lower()); the phase
+   attribute is changed before the retry and stays changed whatever the retry does.  A MultiStream
+   has no such fallback (the model above). *)
+Record pstream := mkP { pmol : vec; pT : Q; pph : nat }.
+Definition lower_phase (ph : nat) : nat := match ph with 4%nat => 2%nat | 5%nat => 3%nat | x => x end.
+
+Section Flip.
+  Variable HfunP : nat -> vec -> Q -> Q.
+  Variable solveP : nat -> vec -> Q -> res Q.
+  Variable hf : vec.
+
+  Definition HnetP (s : pstream) : Q := HfunP (pph s) (pmol s) (pT s) + Hf_of hf (pmol s).
+
+  Definition retryH (s : pstream) (h : Q) (ph' : nat) : option err * pstream :=
+    match solveP ph' (pmol s) h with
+    | Ok t => (None, mkP (pmol s) t ph')
+    | Err e => (Some e, mkP (pmol s) (pT s) ph')
+    end.
+
+  Definition setH_flip (s : pstream) (h : Q) : option err * pstream :=
+    if qzerob h && isempty (pmol s) then (None, s)
+    else match solveP (pph s) (pmol s) h with
+         | Ok t => (None, mkP (pmol s) t (pph s))
+         | Err e => match lower_phase (pph s) with
+                    | 1%nat => retryH s h 2
+                    | 2%nat => retryH s h 1
+                    | _ => (Some e, s)
+                    end
+         end.
+
+  Definition adiabatic_flip (is_stream : bool) (w : vec) (o : robj) (s : pstream) (Qin : Q)
+    : option err * pstream :=
+    if negb is_stream then (Some EValue, s)
+    else
+      let hnet := HnetP s + Qin in
+      let (e, mol') := call_stream w o (pmol s) in
+      let s1 := mkP mol' (pT s) (pph s) in
+      match e with
+      | Some e => (Some e, s1)
+      | None => setH_flip s1 (hnet - Hf_of hf mol')
+      end.
+End Flip.
+
+(* stub solver that can be told to raise in given phases *)
+Definition stubSolveP (cn : vec) (fails : list nat) (ph : nat) (mol : vec) (h : Q) : res Q :=
+  if existsb (Nat.eqb ph) fails then Err ERuntime else stubSolve cn mol h.
+
+Definition thermal_flip_eqb (cn hf w : vec) (fails : list nat) (o : res robj) (is_stream : bool)
+           (s : pstream) (Qin : Q) (hnet0 : Q) (e : option err) (mol' : vec) (T' : Q) (ph' : nat) (hnet' : Q) : bool :=
+  match o with
+  | Err _ => false
+  | Ok ob =>
+      let H := fun (_ : nat) => stubH cn in
+      let r := adiabatic_flip H (stubSolveP cn fails) hf is_stream w ob s Qin in
+      let scale := Qabs hnet0 + Qabs Qin in
+      qapprox_scaled scale (HnetP H hf s) hnet0 && oerr_eqb (fst r) e &&
+      (* the state of the stream is compared after a normal return AND after an exception *)
+      vapproxb (pmol (snd r)) mol' && qapproxb (pT (snd r)) T' && Nat.eqb (pph (snd r)) ph' &&
+      qapprox_scaled scale (HnetP H hf (snd r)) hnet'
+  end.
